@@ -482,7 +482,14 @@ lysp_ext_dup(const struct ly_ctx *ctx, const struct lysp_module *pmod, void *par
     ext->def = orig_ext->def;
 
     ext->parent = parent;
-    ext->parent_stmt = parent_stmt;
+    if ((orig_ext->parent_stmt == LY_STMT_REFINE) || (orig_ext->parent_stmt == LY_STMT_DEVIATION) ||
+            (orig_ext->parent_stmt == LY_STMT_DEVIATE) || !orig_ext->parent_stmt) {
+        /* instance of the amending statement itself, it becomes an instance of the target */
+        ext->parent_stmt = parent_stmt;
+    } else {
+        /* keep the (sub)statement the instance was written in */
+        ext->parent_stmt = orig_ext->parent_stmt;
+    }
     ext->parent_stmt_index = orig_ext->parent_stmt_index;
     ext->flags = orig_ext->flags;
     ext->record = orig_ext->record;
